@@ -10,7 +10,8 @@
 //     probe, traffic probes of the re-registered proxy, of the bystander and of a sibling proxy of the same session,
 //     work connections of the closed proxy (idle http backend connections) and pooled work connections closed.
 //  2. leak slopes: identical cycles with the same names on both servers; goroutines by creation site, descriptors
-//     and table sizes at three equal-phase samples (garbage collector off, so finalizers close nothing).
+//     and table sizes at three equal-phase samples.
+//     The garbage collector is off while cases and cycles run, so only the code under test can close a connection.
 //  3. wrapper contract: spy transport under CloseNotifyConn / StatsConn / the server's work-connection stacks.
 package main
 
